@@ -1,5 +1,5 @@
 \* quick
 CONSTANTS Level = 1
 SPECIFICATION Spec
-INVARIANTS RangeRuleIsTheInterval IntegerBytesDecodeBack LittleIsReversedBig LengthIsElementsTimesWidth PaddingRule MixingIsAnError FloatLayoutIsTheEncoder LookupIsTheTable EveryCopyTranslatedOnce TwiceIsBothTables PackedAdvance PackedPositions AvrDataKeepsEveryCharacter Emit
+INVARIANTS RangeRuleIsTheInterval IntegerBytesDecodeBack LittleIsReversedBig LengthIsElementsTimesWidth PaddingRule MixingIsAnError FloatLayoutIsTheEncoder LookupIsTheTable EveryCopyTranslatedOnce TwiceIsBothTables PackedAdvance PackedPositions AvrDataKeepsEveryCharacter MultiCharReadings Emit
 CHECK_DEADLOCK FALSE
